@@ -11,7 +11,7 @@ def run(ck):
     r = tlc_must_pass(tlc("MC_PsetMerge", "MC_PsetMerge.cfg", w, workers=12, timeout=2400, xmx="16g"), "C14 model")
     ck.add_tlc(r, "families of 3 descendants (<= 2 additions each, disjoint or identical) merged in every order: KeepsAll, NoInvention, "
                   "OrderFree, Commutes, Associates; key-source table: commutative, keeps the longest")
-    _, _, tables = c07.gen(ck)
+    _, _, tables, _sz = c07.gen(ck)
     cases, ks = os.path.join(w, "families.ndjson"), os.path.join(w, "keysources.ndjson")
     r = tlc_must_pass(tlc("Gen_PsetMerge", "Gen_PsetMerge.cfg", w, env={"GEN_TIER": ck.tier, "OUT": cases, "OUT_KS": ks}, workers=1,
                           timeout=2400, xmx="16g"), "C14 gen")
